@@ -271,6 +271,37 @@ impl<'p> Interp<'p> {
 			},
 			V::Seq(_) => self.seq_method(recv, name, args, hint),
 			V::Iter(_) | V::Range(..) => self.iter_method(inner, name, args, hint),
+			V::Enum(ref n, _, _) if (&**n == "Option") && matches!(name, "take" | "replace" | "insert" | "get_or_insert") => {
+				let holder = match &recv {
+					V::Ref(c) => self.deref_cell(c),
+					_ => return unsup("Option::take on a temporary"),
+				};
+				let old = self.read(&holder);
+				match name {
+					"take" => {
+						let none = self.mk_none();
+						self.write(&holder, none)?;
+						Ok(old)
+					}
+					"replace" => {
+						let nv = self.mk_some(args.remove(0));
+						self.write(&holder, nv)?;
+						Ok(old)
+					}
+					_ => {
+						let is_some = matches!(&old, V::Enum(_, va, _) if &**va == "Some");
+						if name == "insert" || !is_some {
+							let nv = self.mk_some(args.remove(0));
+							self.write(&holder, nv)?;
+						}
+						let cur = holder.v.borrow().clone();
+						match cur {
+							V::Enum(_, _, p) => Ok(V::Ref(p[0].clone())),
+							_ => unsup("Option::insert"),
+						}
+					}
+				}
+			}
 			V::Enum(ref n, _, _) if &**n == "Option" || &**n == "Result" => self.option_method(inner, name, args, hint),
 			V::Enum(ref n, ref va, _) if &**n == "Ordering" => match name {
 				"reverse" => Ok(V::Enum("Ordering".into(), match &**va { "Less" => "Greater", "Greater" => "Less", o => o }.into(), vec![])),
